@@ -44,7 +44,8 @@ enum {
 	N_NBR_CANCEL_INFLIGHT, N_NBW_WRITE, N_NBW_BYTES, N_NBW_FAILCB, N_NBW_QUEUED_BEHIND, N_NBW_ZERO, N_NBW_FREE_INFLIGHT,
 	N_F_RECV_SHORT, N_F_RECV_EAGAIN, N_F_RECV_EINTR, N_F_RECV_ERR, N_F_SEND_SHORT, N_F_SEND_EAGAIN, N_F_SEND_EINTR,
 	N_F_SEND_ERR, N_F_POLL_EINTR, N_F_POLL_SPUR, N_F_ACCEPT_SOFT, N_F_ALLOC, N_POLLS, N_BLOCKS, N_RUNS, N_REG_FAIL,
-	N_RW_BOTH, N_OVERLAP, N_MANY, N_BINDFAIL, N_FREE_IN_CB, N_NBR_CONSUME_WAITING, N_NBR_HUGE_REFUSED, N_TLS, N_BULK
+	N_RW_BOTH, N_OVERLAP, N_MANY, N_BINDFAIL, N_FREE_IN_CB, N_NBR_CONSUME_WAITING, N_NBR_HUGE_REFUSED, N_TLS, N_BULK, N_TLS_EARLIER, N_F_BARE_ERR,
+	N_F_BLOCKING_CONNECT
 };
 const char * const engine_counters[] = {
 	"read_requests", "read_completed", "read_eof", "read_error", "write_requests", "write_completed", "write_error",
@@ -59,7 +60,8 @@ const char * const engine_counters[] = {
 	"fault_send_eagain", "fault_send_eintr", "fault_send_hard_error", "fault_poll_eintr", "fault_poll_spurious",
 	"fault_accept_soft_error", "fault_alloc_failed", "polls", "poll_blocked", "events_run_calls", "probe_request_failed_alloc",
 	"probe_read_and_write_outstanding", "probe_overlapping_request_refused", "probe_more_than_16_requests_outstanding", "fault_bind_failed", "probe_object_freed_inside_its_callback",
-	"probe_reader_consume_while_waiting", "probe_reader_unbufferable_wait_refused", "probe_netbuf_over_tls_stub", "probe_write_over_2GiB", NULL
+	"probe_reader_consume_while_waiting", "probe_reader_unbufferable_wait_refused", "probe_netbuf_over_tls_stub", "probe_write_over_2GiB",
+	"probe_plain_connection_after_tls_was_used", "fault_poll_reported_error_alone", "note_connect_on_blocking_descriptor", NULL
 };
 
 #define AF_SINCE(before) (simalloc_failed != (before))
@@ -1559,8 +1561,14 @@ engine_gen(struct plan * P, uint64_t seed, struct prng * g)
 	perr = faulty && prng_chance(g, 25) ? 1 + (int)prng_n(g, 4) : 0;
 	plan_add(P, "knob", "scenario", 1, (int64_t)scenario);
 	if (scenario >= 5 && scenario <= 9)
-		plan_add(P, "knob", "tls", 1, (int64_t)prng_chance(g, 25));
+	{
+		/* tls: 0 plain, 1 the reader/writer under test use the TLS variant, 2 plain, but TLS was used earlier in the process */
+		unsigned tx = prng_n(g, 100);
+
+		plan_add(P, "knob", "tls", 1, (int64_t)(tx < 25 ? 1 : tx < 40 ? 2 : 0));
+	}
 	plan_add(P, "knob", "fd_base", 1, (int64_t)(prng_chance(g, 20) ? 3 + prng_n(g, 200) : prng_chance(g, 15) ? 0 : 3));
+	plan_add(P, "knob", "bare_err", 1, (int64_t)prng_chance(g, 25));
 	plan_add(P, "knob", "tick_ns", 1, prng_chance(g, 25) ? (int64_t)prng_n(g, 3000) : (int64_t)0);
 	plan_add(P, "knob", "fill", 1, (int64_t)(prng_chance(g, 50) ? 256 : (prng_chance(g, 50) ? 0xff : 0)));
 
@@ -1880,6 +1888,8 @@ engine_run(const struct plan * P)
 
 	use_tls = (int)plan_knob(P, "tls", 0) == 1;
 	tls_stub_oracle = "C07.tls-contract";
+	vk_block_oracle = "C06.conn.blocking";
+	vk_bare_err = (int)plan_knob(P, "bare_err", 0) == 1;
 	snprintf(R->crash_prop, sizeof(R->crash_prop), "%s", (plan_knob(P, "scenario", 0) >= 5 && plan_knob(P, "scenario", 0) <= 9) ? "C07" : "C06");
 	vk_fd_base = (int)plan_knob(P, "fd_base", 3);
 	if (vk_fd_base < 0)
@@ -1903,6 +1913,31 @@ engine_run(const struct plan * P)
 	for (i = 0; i < P->n; i++)
 		if (!strcmp(P->l[i].kind, "sock"))
 			setup_socket(P, &P->l[i]);
+
+	if ((int)plan_knob(P, "tls", 0) == 2) {
+		/*
+		 * The process has used TLS on another connection before (the netbuf TLS glue pointers are installed
+		 * and stay so); the connection under test is a plain one.
+		 */
+		struct vsock * scratch = vk_new_stream();
+		struct network_ssl_ctx * ctx;
+		struct netbuf_read * r0;
+		struct netbuf_write * w0;
+
+		LIB_ENTER();
+		ctx = network_ssl_open(scratch->fd, "other.example.org");
+		r0 = ctx ? netbuf_ssl_read_init(ctx) : NULL;
+		w0 = ctx ? netbuf_ssl_write_init(ctx, nbw_fail, &ss[0]) : NULL;
+		if (r0 != NULL)
+			netbuf_read_free(r0);
+		if (w0 != NULL)
+			netbuf_write_free(w0);
+		if (ctx != NULL)
+			network_ssl_close(ctx);
+		LIB_LEAVE();
+		close(scratch->fd);
+		R->cnt[N_TLS_EARLIER]++;
+	}
 
 	for (i = 0; i < P->n; i++) {
 		const struct pline * l = &P->l[i];
@@ -2036,6 +2071,8 @@ engine_run(const struct plan * P)
 	R->cnt[N_F_SEND_ERR] = vk_stats.send_err;
 	R->cnt[N_F_POLL_EINTR] = vk_stats.poll_eintr;
 	R->cnt[N_F_POLL_SPUR] = vk_stats.poll_spurious;
+	R->cnt[N_F_BARE_ERR] = vk_stats.bare_err;
+	R->cnt[N_F_BLOCKING_CONNECT] = vk_stats.connect_blocking;
 	R->cnt[N_F_ACCEPT_SOFT] = vk_stats.accept_soft;
 	R->cnt[N_F_ALLOC] = (uint64_t)simalloc_failed;
 	R->cnt[N_POLLS] = vk_stats.polls;
